@@ -20,6 +20,8 @@ import (
 	"github.com/nuetzliches/hookaido/internal/verifkit/bfs"
 	"github.com/nuetzliches/hookaido/internal/verifkit/dump"
 	"github.com/nuetzliches/hookaido/internal/verifkit/runner"
+	"github.com/nuetzliches/hookaido/internal/verifkit/sched"
+	"github.com/nuetzliches/hookaido/internal/verifkit/schedrun"
 )
 
 // Part (3): two further dimensions of the statement, each as explicit-state searches of their own (one child process
@@ -507,6 +509,7 @@ type out2 struct {
 	next st2
 	key  string
 	why  string
+	cls  string
 	vk   string
 	lab  string
 	stop bool
@@ -530,11 +533,66 @@ func step2(t *testing.T, dir string, v variant, hist []aop, s st2, o aop) (res o
 		next, vd := judge2(w, s, o, obs2{code: code, enqs: w.cs.take(), now: now})
 		res.next, res.why, res.lab, res.stop = next, vd.why, vd.lab, vd.stop
 		if vd.why != "" {
-			res.vk = vioKey2(hist, o, vd.cls)
+			res.cls, res.vk = vd.cls, vioKey2(hist, o, vd.cls)
 		}
 		res.key = w.key(next)
 	})
 	return res
+}
+
+// chain: one boot, the operations one after the other, each under the oracle; returns the index of the first operation
+// the oracle rejects (-1: none) with its verdict, and the outcome labels.
+func chain(t *testing.T, dir string, v variant, ops []aop) (at int, vd verdict, labs []string, infra string) {
+	at = -1
+	synctest.Test(t, func(t *testing.T) {
+		w, err := boot2(dir, v)
+		if err != nil {
+			infra = "INFRA " + err.Error()
+			return
+		}
+		defer w.a.Shutdown()
+		s := init2()
+		for i, o := range ops {
+			if o.Kind == "clock" && w.gp+1 >= len(v.Grid) {
+				labs = append(labs, "-")
+				continue
+			}
+			w.cs.take()
+			code := w.apply(o)
+			next, d := judge2(w, s, o, obs2{code: code, enqs: w.cs.take(), now: time.Now()})
+			labs = append(labs, d.lab)
+			if d.why != "" {
+				at, vd = i, d
+				return
+			}
+			s = next
+		}
+	})
+	return
+}
+
+// shrink: greedy removal of operations from a violating history as long as the last operation still fails in the same
+// class, so that one defect is reported under one key (the class of its shortest history) however many longer
+// histories the search found it through.
+func shrink(t *testing.T, dir string, v variant, hist []aop, o aop, cls string) []aop {
+	fails := func(h []aop) bool {
+		at, vd, _, infra := chain(t, dir, v, append(append([]aop{}, h...), o))
+		return infra == "" && at == len(h) && vd.cls == cls
+	}
+	if !fails(hist) {
+		return hist
+	}
+	for again := true; again; {
+		again = false
+		for i := range hist {
+			cand := append(append([]aop{}, hist[:i]...), hist[i+1:]...)
+			if fails(cand) {
+				hist, again = cand, true
+				break
+			}
+		}
+	}
+	return hist
 }
 
 func init2() st2 { return st2{CurTol: tol, Pair: map[string]string{}, Enq: map[string]int{}} }
@@ -543,8 +601,7 @@ func init2() st2 { return st2{CurTol: tol, Pair: map[string]string{}, Enq: map[s
 
 var (
 	gridFull  = grid
-	gridShort = []time.Duration{0, tol, tol + 1, 2*tol + 1}
-	gridMid   = []time.Duration{0, tol, tol + 1, 2 * tol, 2*tol + 1, 3*tol + 1}
+		gridMid   = []time.Duration{0, tol, tol + 1, 2 * tol, 2*tol + 1, 3*tol + 1}
 )
 
 func sendsOf(pairs ...string) (l []aop) {
@@ -579,28 +636,31 @@ func cat(ls ...[]aop) (l []aop) {
 }
 
 // variants of a tier. quick: three fan-out configurations (reject with room for one / two copies, drop_oldest) with two
-// nonces on a short clock grid, and the pull configuration of part (1) with management mutations and failing reloads.
-// thorough: fan-out with max_depth 1..3 x both drop policies and the pull configuration, each with the whole alphabet
-// (two nonces, two signed timestamps, a wrong signature, all 12 clock positions, both reloads, both drains, all nine
-// management mutations, both failing reloads).
+// nonces and two signed timestamps on a six-position clock grid, and the pull configuration of part (1) with all nine
+// management mutations (upsert to the HMAC route / to another route / delete, each applied or refused by its reload
+// for one of two reasons) and both failing reloads. thorough: the quick ones, plus on all 12 clock positions: the pull
+// configuration with the whole alphabet (wrong signature, second nonce, both drains as well) and fan-out with
+// max_depth 1..3 x both drop policies with three sends, both reloads, both drains, four management mutations
+// (applied upsert / delete, refused upsert / delete) and both failing reloads.
 func variants(thorough bool) []variant {
+	fan := cat(sendsOf("n1", "n2", "n1@1"), reloadOps, drainOps)
+	quick := []variant{
+		{Name: "fanout2-reject-depth1", Targets: 2, MaxDepth: 1, Drop: "reject", Grid: gridMid, Ops: fan},
+		{Name: "fanout2-reject-depth2", Targets: 2, MaxDepth: 2, Drop: "reject", Grid: gridMid, Ops: cat(sendsOf("n1", "n2"), reloadOps, drainOps)},
+		{Name: "fanout2-drop_oldest-depth1", Targets: 2, MaxDepth: 1, Drop: "drop_oldest", Grid: gridMid, Ops: fan},
+		{Name: "pull-management", Targets: 0, Grid: gridMid, Ops: cat(sendsOf("n1", "n1@1"), reloadOps, []aop{{Kind: "drain"}}, mgmtAll(), badReloads)},
+	}
 	if !thorough {
-		fan := cat(sendsOf("n1", "n2", "n1@1"), reloadOps, drainOps)
-		return []variant{
-			{Name: "fanout2-reject-depth1", Targets: 2, MaxDepth: 1, Drop: "reject", Grid: gridMid, Ops: fan},
-			{Name: "fanout2-reject-depth2", Targets: 2, MaxDepth: 2, Drop: "reject", Grid: gridMid, Ops: fan},
-			{Name: "fanout2-drop_oldest-depth1", Targets: 2, MaxDepth: 1, Drop: "drop_oldest", Grid: gridMid, Ops: fan},
-			{Name: "pull-management", Targets: 0, Grid: gridMid, Ops: cat(sendsOf("n1", "n1@1"), reloadOps, []aop{{Kind: "drain"}}, mgmtAll(), badReloads)},
+		return quick
+	}
+	vs := []variant{{Name: "wide-pull-management", Targets: 0, Grid: gridFull, Ops: cat(sendsOf("n1", "n1!", "n2", "n1@1"), reloadOps, drainOps, mgmtAll(), badReloads)}}
+	mgmt4 := []aop{{Kind: "mgmt", Method: "put", Route: "/h"}, {Kind: "mgmt", Method: "delete"}, {Kind: "mgmt", Method: "put", Route: "/h", Pending: "restart"}, {Kind: "mgmt", Method: "delete", Pending: "secret"}}
+	for depth := 3; depth >= 1; depth-- {
+		for _, drop := range []string{"reject", "drop_oldest"} {
+			vs = append(vs, variant{Name: fmt.Sprintf("wide-fanout2-%s-depth%d", drop, depth), Targets: 2, MaxDepth: depth, Drop: drop, Grid: gridFull, Ops: cat(fan, mgmt4, badReloads)})
 		}
 	}
-	all := cat(sendsOf("n1", "n1!", "n2", "n1@1"), reloadOps, drainOps, mgmtAll(), badReloads)
-	vs := []variant{{Name: "pull-management", Targets: 0, Grid: gridFull, Ops: all}}
-	for _, drop := range []string{"reject", "drop_oldest"} {
-		for depth := 1; depth <= 3; depth++ {
-			vs = append(vs, variant{Name: fmt.Sprintf("fanout2-%s-depth%d", drop, depth), Targets: 2, MaxDepth: depth, Drop: drop, Grid: gridFull, Ops: all})
-		}
-	}
-	return vs
+	return append(vs, quick...)
 }
 
 // ---- running ------------------------------------------------------------------------------------------------------
@@ -614,7 +674,7 @@ func startAfter(r *runner.Run) *afterRun {
 	n := len(variants(r.Thorough()))
 	go func() {
 		defer close(ar.done)
-		r.RunJobs(n, runner.Pick(r, 4, 7), runner.Pick(r, 6*time.Minute, 40*time.Minute))
+		r.RunJobs(n, runner.Pick(r, 4, 7), runner.Pick(r, 6*time.Minute, 40*time.Minute)) // the children stop at their own deadline long before
 	}()
 	return ar
 }
@@ -687,13 +747,28 @@ func afterChild(t *testing.T, job int) {
 	if len(res.SampleHists) > 0 {
 		r.Sample(map[string]any{"configuration": v.Name, "history": hist2text(res.SampleHists[len(res.SampleHists)/2])})
 	}
+	reported := map[string]bool{}
 	for _, vio := range res.Violations {
 		if strings.HasPrefix(vio.Message, "INFRA") {
 			r.Infra("%s: %s", v.Name, vio.Message)
 			continue
 		}
-		r.Violation(vio.Key, fmt.Sprintf("configuration %s (%s), after %v, %s: %s", v.Name, v.describe(), hist2text(vio.Hist), vio.Op, vio.Message),
-			map[string]any{"engine": "after", "variant": v, "history": vio.Hist, "op": vio.Op, "history_text": hist2text(vio.Hist)}, nil)
+		// re-run the history under the oracle in one boot, shrink it, and name the violation after the shrunk history
+		full := append(append([]aop{}, vio.Hist...), vio.Op)
+		at, vd, _, infra := chain(t, dir, v, full)
+		if infra != "" || at != len(vio.Hist) {
+			r.Infra("%s: violation %s after %v, %s did not reproduce in one boot (%s, failing operation %d): %s", v.Name, vio.Key, hist2text(vio.Hist), vio.Op, infra, at, vio.Message)
+			continue
+		}
+		hist := shrink(t, dir, v, vio.Hist, vio.Op, vd.cls)
+		_, vd, _, _ = chain(t, dir, v, append(append([]aop{}, hist...), vio.Op))
+		key := vioKey2(hist, vio.Op, vd.cls)
+		if reported[key] {
+			continue
+		}
+		reported[key] = true
+		r.Violation(key, fmt.Sprintf("configuration %s (%s), after %v, %s: %s", v.Name, v.describe(), hist2text(hist), vio.Op, vd.why),
+			map[string]any{"engine": "after", "variant": v, "history": hist, "op": vio.Op, "history_text": hist2text(hist)}, nil)
 	}
 	r.Finish()
 }
@@ -728,19 +803,82 @@ func replayAfter(r *runner.Run, t *testing.T, path string) {
 		return
 	}
 	dir := filepath.Join(runner.Scratch(), "c09-replay-"+v.Name)
-	s := init2()
-	for i, o := range hist {
-		res := step2(t, dir, v, hist[:i], s, o)
-		if strings.HasPrefix(res.why, "INFRA") {
-			r.Infra("%s", res.why)
-			return
+	at, vd, labs, infra := chain(t, dir, v, hist)
+	if infra != "" {
+		r.Infra("%s", infra)
+		return
+	}
+	for i, l := range labs {
+		fmt.Printf("  %-100s -> %s\n", hist[i], l)
+	}
+	r.Add("states", int64(len(labs)))
+	r.Add("transitions", int64(len(labs)))
+	r.Add("traces_validated_against_impl", 1)
+	r.Sample(map[string]any{"replayed": path})
+	if at >= 0 {
+		r.Violation("replay:"+vioKey2(hist[:at], hist[at], vd.cls), fmt.Sprintf("configuration %s (%s), after %v, %s: %s", v.Name, v.describe(), hist2text(hist[:at]), hist[at], vd.why),
+			map[string]any{"engine": "after", "variant": v, "history": hist[:at], "op": hist[at]}, nil)
+	} else {
+		fmt.Printf("REPLAY property=%s configuration=%s: the history no longer violates the property\n", r.Prop, v.Name)
+	}
+}
+
+// ---- schedules: a replay against a management mutation ------------------------------------------------------------
+
+// mgmtSched: the original is honoured, then its replay and a management mutation (applied, or refused by its reload
+// because the file carries a pending restart-required edit) run concurrently: whatever the interleaving, the replay
+// is refused and one message is stored.
+func mgmtSched(r *runner.Run, t *testing.T, dir string) {
+	for _, refused := range []bool{false, true} {
+		refused := refused
+		name := "replay-vs-management-mutation-" + map[bool]string{false: "applied", true: "refused"}[refused]
+		body := func(x *sched.Exec) {
+			w, err := boot(dir)
+			if err != nil {
+				x.Err = err
+				return
+			}
+			time.Sleep(w.ts0.Sub(time.Now()))
+			rec := httptest.NewRecorder()
+			w.a.Ingress.ServeHTTP(rec, signed("n1", w.tsOf(0), true))
+			x.Logf("original=%d", rec.Code)
+			if refused {
+				os.WriteFile(w.a.ConfigPath, []byte(strings.Replace(dsl(tol), "127.0.0.1:18080", "127.0.0.1:18081", 1)), 0o644)
+			}
+			x.Go("replay", func() {
+				rec := httptest.NewRecorder()
+				w.a.Ingress.ServeHTTP(rec, signed("n1", w.tsOf(0), true))
+				x.Logf("replay=%d", rec.Code)
+			})
+			x.Go("mutation", func() {
+				rq := httptest.NewRequest("PUT", "/applications/billing/endpoints/inv", strings.NewReader(`{"route":"/h"}`))
+				rq.Header.Set("X-Hookaido-Audit-Reason", "verif")
+				rq.Header.Set("Content-Type", "application/json")
+				rec := httptest.NewRecorder()
+				w.a.Admin.ServeHTTP(rec, rq)
+				x.Logf("mutation=%d", rec.Code/100)
+			})
+			x.Run()
+			x.Finish()
+			s, _ := w.store.Stats()
+			x.Logf("stored=%d", s.Total)
+			w.a.Shutdown()
 		}
-		fmt.Printf("  %-90s -> %s\n", o, res.lab)
-		if res.why != "" {
-			r.Violation("replay:"+res.vk, fmt.Sprintf("configuration %s (%s), after %v, %s: %s", v.Name, v.describe(), hist2text(hist[:i]), o, res.why),
-				map[string]any{"engine": "after", "variant": v, "history": hist[:i], "op": o}, nil)
-			return
+		oracle := func(x *sched.Exec) {
+			got := map[string]string{}
+			for _, l := range x.Log {
+				if k, v, ok := strings.Cut(l, "="); ok {
+					got[k] = v
+				}
+			}
+			if got["original"] != "202" {
+				sched.Failf("a valid signed request with a fresh nonce was answered %s", got["original"])
+			}
+			if got["replay"] == "202" || got["stored"] != "1" {
+				sched.Failf("the replay of an honoured request, concurrent with a management mutation (answer %sxx), was answered %s; %s messages stored", got["mutation"], got["replay"], got["stored"])
+			}
 		}
-		s = res.next
+		schedrun.Run(r, t, schedrun.Spec{Name: name, Bound: runner.Pick(r, 3, -1), Shards: 8, Budget: runner.Pick(r, 10*time.Second, 2*time.Minute), MaxExecs: 300000,
+			Body: body, Oracle: oracle, VioKey: func(f *sched.Failure) string { return "replay-during-management-mutation" }})
 	}
 }
